@@ -2,10 +2,24 @@
 Theorems of coq/C18 + correspondence / property-on-impl for
   kind 0  PCA::pca_compute | maf_compute_interval, dbZ2F then dbF2Z   (eigen-pairs harvested, certificates checked exactly)
   kind 1  hermitePolynomials
-  kind 2  AnamHermite transformToRawValue / rawToTransformValue (psi, bounds harvested)
-  kind 3  VH::normalScore
+  kind 2  AnamHermite fit | reset, transformToRawValue / rawToTransformValue, Db-level rawToGaussian / gaussianToRaw (by name, by locator)
+  kind 3  VH::normalScore, AAnam::normalScore with a selection
   kind 4  AnamEmpirical (normal-score fit) forward / backward
   kind 5  Rotation rotateDirect / rotateInverse
+  kind 6  hermiteCondExpElement with 1-8 coefficients, under AddressSanitizer
+
+Two-stage correspondence: the harness runs first and returns its answers together with the oracles the model needs
+(eigen-pairs, square roots, fitted coefficients and bounds, tables); the model case = inputs + oracles.
+
+Violation keys (call site : what fails):
+  pca|maf:dbZ2F-dbF2Z-roundtrip, :isotopic-filter, :factors-not-orthonormal, :certificate:<identity>, :compute-fails
+  hermitePolynomials:recurrence | :size            hermiteCondExpElement:expansion      asan:<function>:<report>:<n>-coefficient-expansion
+  AnamHermite:expansion, :raw-gaussian-raw-roundtrip, :rawToTransformValue-not-monotone, :bound, :undefined-in, :db-transform-fails|-undefined, :fit-fails
+  AAnam:rawToGaussianByLocator | AAnam:gaussianToRawByLocator
+  normalScore:rank, :undefined, :refusal, :size, :not-monotone, :db-selection, :db-fails
+  AnamEmpirical:fit-table, :raw-gaussian-raw-roundtrip, :not-monotone, :undefined-in, :fit-fails
+  Rotation:inverse-not-transpose, :certificate, :direct-inverse-roundtrip
+  model-drift:<kind>:<quantity>  (impl satisfies the property on every explored input but differs from the model)   crash:<kind>
 """
 import sys, os, math
 sys.path.insert(0, os.path.dirname(__file__))
@@ -292,9 +306,10 @@ def check_anam(ctx, py, im, mo, site):
         if core:
             ctx.dist('anam_query_inverted')
             sent_m = abs(float(ym)) == 11.0; sent_i = abs(float(iv)) == 11.0
-            if float(unq(marg)) <= 10 * noise or (sent_m != sent_i and min(abs(float(ym)), abs(float(iv))) >= 10.0 - 1e-6):
-                # a decision closer to its threshold than the round-off of the double evaluation, or the scan found its bracket at its
-                # last step (100 * 0.1 accumulated in binary64 is below 10, exactly it is above 10): excluded
+            if float(unq(marg)) <= 10 * noise or (sent_m != sent_i and min(abs(float(ym)), abs(float(iv))) >= 9.9 - 1e-6):
+                # a decision closer to its threshold than the round-off of the double evaluation, or the scan found its bracket in the
+                # last grid cell [9.9, 10] (100 * 0.1 accumulated in binary64 is below 10, exactly it is above 10, which decides the
+                # out-of-range exit): excluded
                 site.tie = getattr(site, 'tie', 0) + 1; ctx.dist('anam_query_tie'); continue
             if br != []:
                 a, b, za, zb = [float(unq(x)) for x in br]
@@ -307,6 +322,12 @@ def check_anam(ctx, py, im, mo, site):
             site.close('rawToTransformValue(%s) [outside practical interval]' % float(z), iv, ym, 1e-9, 1.0)
     # --- properties on impl (fitted anamorphosis with bounds: the validity interval is [az.min, az.max])
     if py['mode'] == 0 and py['flagBound']:
+        pyv = [undy(pyi[0]), undy(pyi[1])]
+        if None in azv or None in ayv or None in pzv or None in pyv or not (azv[0] < azv[1] and ayv[0] < ayv[1] and azv[0] <= pzv[0] <= pzv[1] <= azv[1] and ayv[0] <= pyv[0] <= pyv[1] <= ayv[1]):
+            site.spec.append(('AnamHermite:bounds-inverted', 'the fitted anamorphosis reports absolute raw bounds [%s, %s] / Gaussian [%s, %s] and practical raw bounds [%s, %s] / Gaussian [%s, %s]: '
+                              'not nested increasing intervals (every raw value is then sent to a bound; data range [%.6g, %.6g])'
+                              % (fl(azv[0]), fl(azv[1]), fl(ayv[0]), fl(ayv[1]), fl(pzv[0]), fl(pzv[1]), fl(pyv[0]), fl(pyv[1]), min(actv), max(actv))))
+            return
         # Db level: raw -> Gaussian -> raw returns the starting values inside the validity interval, to the accuracy of the stopping rule
         if r1 != 0 or r2 != 0:
             site.spec.append(('AnamHermite:db-transform-fails', 'rawToGaussian returns %d, gaussianToRaw returns %d' % (r1, r2))); return
@@ -610,13 +631,20 @@ def run(ctx):
     ctx.assumptions = ['eigen-decompositions, square roots, the Gaussian quantile/cdf approximations and the fitted Hermite coefficients are oracles harvested from the implementation; '
                        'their certificates (orthogonality, E.L.Et = C0, Z2F.F2Z = I) are re-checked in exact arithmetic on every case',
                        'the moment functional E[x^2k] = (2k-1)!!, E[x^2k+1] = 0 is integration against the standard Gaussian density (cited, not proved)',
-                       'round-off tolerance 1e-10 x conditioning for PCA/MAF; 1e-12 relative for Hermite polynomials; 1e-9 for anamorphosis values']
+                       'round-off tolerances: 1e-10 x conditioning (PCA/MAF, cases with conditioning > 1e5 or a singular covariance excluded); '
+                       '1e-12 x n x (|value| + running maximum) for Hermite polynomials and expansions (n = number of polynomials, scale = sum |psi_n H_n|); '
+                       'inverse anamorphosis: 1e-9 + bracket width x round-off / bracket height; decisions closer to their threshold than the round-off are excluded (tie_excluded)',
+                       'the raw -> Gaussian -> raw accuracy demanded of the implementation is the one proved for the stopping rule (C18_bisection): twice max(|phi(1) - phi(-1)| / 1e5, '
+                       'height of the final bracket), inside the absolute validity interval [az.min, az.max] reported by the object',
+                       'comparisons against irrational references use CPython floats, decimal (80 digits, sqrt(k!)) and math.erfc (Gaussian cdf); quantile tolerance 2e-6 in probability '
+                       '(law_invcdf_gaussian is a 1e-7 approximation)',
+                       'AnamHermite::_defineBounds and the fit are not modelled: coefficients and bounds are harvested; PCA::_variogramh is not modelled (MAF: only V^T C0 V = I and the inverse are checked)']
 
 def run_resilient(ctx, exe, name, cases, env=None):
     """run the harness; a crash loses only the crashing case (the run is resumed after it). Returns (results | None, log | None) per case"""
     res = [None] * len(cases); logs = [None] * len(cases)
     start = 0
-    for attempt in range(12):
+    for attempt in range(len(cases) + 1):
         if start >= len(cases): break
         cf = write_cases(ctx, '%s%d' % (name, attempt), cases[start:])
         rc, out = run_impl(ctx, exe, cf, env=env)
